@@ -284,6 +284,17 @@ func renamesBack(root string, env []string, overlay map[string][]byte, note *Inl
 		}
 	}
 	// ---- struct fields and interface methods of types present in both trees (or just paired)
+	// (a field type that is a NEW unexported named non-struct type reads as its definition)
+	canonFields := func(dir string, fields []string) string {
+		var ts []string
+		for _, t := range strings.Split(typesOnly(fields), ";") {
+			if d := cur[dir+":"+t]; d != nil && d.kind == "type" && baselineDecls[dir+":"+t] == nil && unexp(t) && len(d.fields) == 0 && !d.isIfc && !strings.HasPrefix(d.def, "struct") {
+				t = d.def
+			}
+			ts = append(ts, normTypeText(t))
+		}
+		return strings.Join(ts, ";")
+	}
 	for k, c := range cur {
 		b := baselineDecls[k]
 		if b == nil {
@@ -291,7 +302,7 @@ func renamesBack(root string, env []string, overlay map[string][]byte, note *Inl
 				b = baselineDecls[c.dir+":"+to]
 			}
 		}
-		if b == nil || c.kind != "type" || len(c.fields) == 0 || len(c.fields) != len(b.fields) || typesOnly(c.fields) != typesOnly(b.fields) {
+		if b == nil || c.kind != "type" || len(c.fields) == 0 || len(c.fields) != len(b.fields) || canonFields(c.dir, c.fields) != canonFields(c.dir, b.fields) {
 			continue
 		}
 		oldNames := map[string]bool{}
@@ -401,6 +412,113 @@ func renamesBack(root string, env []string, overlay map[string][]byte, note *Inl
 			}
 		}
 	}
+	// ---- renamed AND re-shaped: a missing confirmed function and an unknown one whose bodies call the same
+	// things are the same function under a new name (the signature solver then puts the parameters back).
+	// Only the name is decided here; the pairing must be the best one for both, by a margin.
+	{
+		paired := map[string]bool{}
+		for _, p := range plans {
+			if p.what == "func" {
+				paired[p.fromKey] = true
+				paired[p.dir+":"+recvBackOwner(p.owner)+"."+p.to] = true
+			}
+		}
+		set := func(print string) map[string]bool {
+			m := map[string]bool{}
+			for _, k := range strings.Split(print, ",") {
+				if k != "" {
+					m[k] = true
+				}
+			}
+			return m
+		}
+		sim := func(a, b string) float64 {
+			sa, sb := set(a), set(b)
+			if len(sa) < 2 || len(sb) < 2 {
+				return 0
+			}
+			inter := 0
+			for k := range sa {
+				if sb[k] {
+					inter++
+				}
+			}
+			return float64(inter) / float64(len(sa)+len(sb)-inter)
+		}
+		for dir, news := range newF {
+			// what an unknown function calls includes what the unknown helpers it calls call (they are expanded later)
+			byCallee := map[string]string{}
+			for _, n := range news {
+				if n.recv == "" {
+					byCallee[n.name] = n.print
+				}
+				byCallee["."+n.name] = n.print
+			}
+			for i := range news {
+				full := set(news[i].print)
+				for round := 0; round < 3; round++ {
+					for k := range full {
+						if p, ok := byCallee[k]; ok && k != news[i].name && k != "."+news[i].name {
+							delete(full, k)
+							for k2 := range set(p) {
+								if k2 != k {
+									full[k2] = true
+								}
+							}
+						}
+					}
+				}
+				var ks []string
+				for k := range full {
+					ks = append(ks, k)
+				}
+				sort.Strings(ks)
+				news[i].print = strings.Join(ks, ",")
+			}
+			best := func(n fnInfo) (fnInfo, float64, float64) {
+				var bm fnInfo
+				b1, b2 := 0.0, 0.0
+				for _, m := range missF[dir] {
+					if paired[m.key] || !resultsAgree(resultsOf(m.sig), resultsOf(sigBack(dir, n.sig))) {
+						continue
+					}
+					if s := sim(m.print, n.print); s > b1 {
+						bm, b1, b2 = m, s, b1
+					} else if s > b2 {
+						b2 = s
+					}
+				}
+				return bm, b1, b2
+			}
+			for _, n := range news {
+				if paired[n.key] {
+					continue
+				}
+				m, s1, s2 := best(n)
+				if s1 < 0.5 || s1-s2 < 0.15 || m.name == n.name {
+					continue
+				}
+				// the best the other way round, too
+				r1, r2 := 0.0, 0.0
+				var rn fnInfo
+				for _, n2 := range news {
+					if paired[n2.key] || !resultsAgree(resultsOf(m.sig), resultsOf(sigBack(dir, n2.sig))) {
+						continue
+					}
+					if s := sim(m.print, n2.print); s > r1 {
+						rn, r1, r2 = n2, s, r1
+					} else if s > r2 {
+						r2 = s
+					}
+				}
+				if rn.key != n.key || r1-r2 < 0.15 {
+					continue
+				}
+				plans = append(plans, renamePlan{what: "func", dir: dir, owner: n.recv, from: n.name, to: m.name, fromKey: n.key})
+				paired[n.key], paired[m.key] = true, true
+			}
+		}
+	}
 	if len(plans) == 0 {
 		return
 	}
@@ -473,6 +591,13 @@ func renamesBack(root string, env []string, overlay map[string][]byte, note *Inl
 								if p.owner == "" && scope.Lookup(p.to) != nil {
 									continue
 								}
+								if p.owner != "" {
+									if tn, _ := scope.Lookup(p.owner).(*types.TypeName); tn != nil {
+										if x, _, _ := types.LookupFieldOrMethod(types.NewPointer(tn.Type()), true, pk.Types, p.to); x != nil {
+											continue
+										}
+									}
+								}
 								targets[o] = p.to
 								done = append(done, "func "+p.fromKey+" → "+p.to)
 							}
@@ -514,4 +639,13 @@ func renamesBack(root string, env []string, overlay map[string][]byte, note *Inl
 		}
 		note.Renamed = append(note.Renamed, done...)
 	}
+}
+
+func recvBackOwner(o string) string { return o }
+
+// resultsAgree: the same results, or the confirmed function has one more, a trailing error.
+func resultsAgree(confirmed, current string) bool {
+	confirmed, current = normTypeText(confirmed), normTypeText(current)
+	return confirmed == current || (current == "()" && confirmed == "(error)") ||
+		(strings.HasSuffix(confirmed, ",error)") && strings.TrimSuffix(confirmed, ",error)")+")" == current)
 }
